@@ -12,6 +12,7 @@ def independent_parse(text):
     """our own DIMACS reader: -> (declared vars, declared clauses, clause list, sampling set)"""
     V = C = None
     clauses, ind = [], []
+    cur = []
     for line in text.splitlines():
         line = line.strip()
         if not line:
@@ -24,9 +25,15 @@ def independent_parse(text):
             parts = line.split()
             V, C = int(parts[2]), int(parts[3])
         else:
-            toks = [int(x) for x in line.split()]
-            assert toks[-1] == 0, line
-            clauses.append(toks[:-1])
+            # DIMACS proper: a clause is a run of literals ended by 0 and may continue on the next line (what a SAT solver reads)
+            for x in line.split():
+                if int(x) == 0:
+                    clauses.append(cur)
+                    cur = []
+                else:
+                    cur.append(int(x))
+    if cur:
+        clauses.append(cur)          # unterminated last clause: still reported, the counts will not match
     return V, C, clauses, ind
 
 
@@ -117,6 +124,10 @@ def main(tier):
     path = WORK / f"c27-{seed()}.cnf"
     cases = [(f"random-{i}", CNF(random_cnf(rng)), None) for i in range(200 if tier == "quick" else 1500)]
     cases += design_cnfs(tier)
+    # wide formulas: the blocking clause has one literal per support variable, i.e. thousands of characters on one line
+    for width in ((1300, 3000) if tier == "quick" else (1300, 3000, 12000)):
+        wide = [[v, -(v + 1)] for v in range(1, width)] + [[width, -1, 2]]          # ids 1..width all used (the header counts distinct ids)
+        cases.append((f"wide-{width}", CNF(wide), width))
     supports = [0, 1, 9, 10, 11, 25]
     fails = {}
 
@@ -163,7 +174,16 @@ def main(tier):
                     fail("C27.update_file.blocking", f"{name}:update", f"{name}: update_file did not add exactly the negated solution (header {C}->{C2}, vars {V}->{V2}, extra clauses {added[:3]})",
                          solution=sol, text=path.read_text()[:400])
                 if multiset(library_cms_parse(path)) != multiset(got2):
-                    fail("C27.update_file.blocking", f"{name}:reparse", "updated file is not parsed back to the same clauses")
+                    fail("C27.update_file.blocking", f"{name}:reparse", f"{name}: the updated file is not parsed back by the pycryptosat front end to the clauses it contains (support {support})", solution=sol[:20])
+                lib3, ind4, nv4 = parse_cnf_file(path)
+                if multiset(lib3) != multiset(got2) or ind4 != ind:
+                    fail("C27.update_file.blocking", f"{name}:reparse-unigen", f"{name}: parse_cnf_file does not recover the clauses / sampling set of the updated file (support {support})", solution=sol[:20])
+                # a second iteration on the same file: again exactly one more clause
+                sol2 = [-l for l in sol[:-1]] + [sol[-1]]
+                update_file(path, list(sol2))
+                V3, C3, got3, _ = independent_parse(path.read_text())
+                if C3 != C + 2 or len(got3) != C + 2 or V3 != V or multiset(library_cms_parse(path)) != multiset(got3):
+                    fail("C27.update_file.blocking", f"{name}:update2", f"{name}: second update_file: header {C2}->{C3}, {len(got3)} clauses in the file, variables {V}->{V3}", solution=sol2[:20])
     path.unlink(missing_ok=True)
     for ob in ("C27.header.counts", "C27.dimacs.roundtrip", "C27.update_file.blocking"):
         ck.oblig(ob + "(all cases)", "E", "failed" if ob in fails else "passed", detail=f"{len(cases)} formulas")
